@@ -80,7 +80,16 @@ func cmdExplore(args []string) {
 	states, trans, execs, capped := 0, 0, 0, 0
 	kinds := map[string]int{}
 	ex := map[string]string{}
+	porExecs, porStates, diffs := 0, 0, 0
 	for _, r := range res {
+		porExecs += r.PORExecs
+		porStates += r.PORStates
+		if r.PORDiff != "" {
+			diffs++
+			if diffs <= 12 {
+				fmt.Printf("POR-DISAGREEMENT %s %s [%s]\n   %s\n", r.Pkg, c.ByPkg[r.Pkg].Spec, r.Scenario, r.PORDiff)
+			}
+		}
 		states += r.States
 		trans += r.Transitions
 		execs += r.Execs
@@ -96,6 +105,9 @@ func cmdExplore(args []string) {
 		}
 	}
 	fmt.Printf("states=%d transitions=%d execs=%d capped=%d\n", states, trans, execs, capped)
+	if os.Getenv("VERIF_POR") == "both" {
+		fmt.Printf("partial-order reduction: execs=%d states=%d disagreements=%d\n", porExecs, porStates, diffs)
+	}
 	var ks []string
 	for k := range kinds {
 		ks = append(ks, k)
